@@ -68,7 +68,7 @@ def run_executables(chk, work):
     cases = []
     for i in range(ncases):
         d = os.path.join(work, "exe%d" % i)
-        gen = [gen_stat_case, gen_reupdate_case, gen_stat_case,
+        gen = [gen_stat_case, gen_reupdate_case, gen_stat_bonded_case,
                gen_reupdate_case, gen_orientcorr_case,
                gen_partial_rdf_case][i % 6]
         cases.append((d, gen(rng, d)))
@@ -295,6 +295,52 @@ def exe_path(fl, kind):
         sub = kind[4:]
         return os.path.join(vf.flavour_dir(fl), "csg", "src", "csgapps", sub, kind)
     return vf.exe(fl, kind)
+
+
+def gen_stat_bonded_case(rng, d):
+    """csg_stat without mapping on an xml topology that itself carries bonded
+    interactions (bond, angle) and hence exclusions: every worker's topology
+    must carry them, or bonded histograms and the rdf depend on --nt"""
+    os.makedirs(d, exist_ok=True)
+    nmol = rng.randint(15, 40)
+    nfr = rng.choice([2, 4, 6, 9, 12])
+    open(os.path.join(d, "topol.xml"), "w").write(
+        '<topology>\n <molecules>\n  <molecule name="TRI" nmols="%d" nbeads="3">\n'
+        '   <bead name="A" type="A" mass="1" q="0" />\n'
+        '   <bead name="B" type="A" mass="1" q="0" />\n'
+        '   <bead name="C" type="A" mass="1" q="0" />\n'
+        '  </molecule>\n </molecules>\n <bonded>\n'
+        '  <bond>\n   <name>bond</name>\n   <beads>\n    TRI:A TRI:B\n    TRI:B TRI:C\n   </beads>\n  </bond>\n'
+        '  <angle>\n   <name>angle</name>\n   <beads>\n    TRI:A TRI:B TRI:C\n   </beads>\n  </angle>\n'
+        ' </bonded>\n</topology>\n' % nmol)
+    open(os.path.join(d, "settings.xml"), "w").write(
+        "<cg>\n <non-bonded>\n  <name>A-A</name>\n  <type1>A</type1>\n  <type2>A</type2>\n"
+        "  <min>0</min>\n  <max>0.9</max>\n  <max_intra>0.9</max_intra>\n  <step>0.05</step>\n </non-bonded>\n"
+        " <bonded>\n  <name>bond</name>\n  <min>0.05</min>\n  <max>0.35</max>\n  <step>0.01</step>\n </bonded>\n"
+        " <bonded>\n  <name>angle</name>\n  <min>0</min>\n  <max>3.14</max>\n  <step>0.1</step>\n </bonded>\n</cg>\n")
+    steps, st = [], rng.randint(0, 100)
+    with open(os.path.join(d, "traj.dump"), "w") as f:
+        for _ in range(nfr):
+            L = rng.uniform(22.0, 28.0)
+            steps.append(st)
+            f.write("ITEM: TIMESTEP\n%d\nITEM: NUMBER OF ATOMS\n%d\n"
+                    "ITEM: BOX BOUNDS pp pp pp\n0 %.6f\n0 %.6f\n0 %.6f\n"
+                    "ITEM: ATOMS id type x y z\n" % (st, 3 * nmol, L, L, L))
+            st += rng.randint(1, 50)
+            k = 1
+            for _m in range(nmol):
+                a = [rng.uniform(0, L) for _ in range(3)]
+                b = [a[i] + rng.uniform(-1.4, 1.4) for i in range(3)]
+                c = [b[i] + rng.uniform(-1.4, 1.4) for i in range(3)]
+                for p in (a, b, c):
+                    f.write("%d 0 %.6f %.6f %.6f\n" % (k, p[0], p[1], p[2]))
+                    k += 1
+    opts = ["--top", "../topol.xml", "--trj", "../traj.dump", "--options", "../settings.xml"]
+    if rng.random() < 0.5:
+        opts.append("--include-intra")
+    return {"kind": "csg_stat", "nmol": nmol, "frames": nfr, "steps": steps,
+            "opts": opts, "imc": False, "block": None, "selected": steps,
+            "ordered": True}
 
 
 def gen_orientcorr_case(rng, d):
